@@ -690,7 +690,9 @@ fn align_serif_edge(axis: &mut Axis, base_edge_ix: usize, serif_edge_ix: usize) 
     let edges = axis.edges.as_mut_slice();
     let base_edge = &edges[base_edge_ix];
     let serif_edge = &edges[serif_edge_ix];
-    edges[serif_edge_ix].pos = base_edge.pos + (serif_edge.opos - base_edge.opos);
+    edges[serif_edge_ix].pos = base_edge
+        .pos
+        .wrapping_add(serif_edge.opos.wrapping_sub(base_edge.opos));
 }
 
 /// Adjusts both edges of a stem and returns the delta.
